@@ -325,6 +325,153 @@ def shard_big(seed, count):
     return acc
 
 
+def mutate_case(lay, script):
+    """a hub whose device list the embedder changes while it is in use (bank switching, remapping boot ROM and RAM, hot-plugging a device): accesses,
+    then a device removed / appended / its window moved in place by assigning `beginning` and `end` / two windows swapped, then accesses again. The model
+    is the same list manipulated the same way. returns None or violation text"""
+    from armulator.armv6.memory_controller_hub import MemoryController
+    from armulator.armv6.memory_types import RAM
+    model = Model([tuple(x) for x in lay])
+    hub = build_hub(model)
+    try:
+        for step in script:
+            if step[0] in ('r', 'w'):
+                do_op(hub, model, tuple(step))
+            elif step[0] == 'pop':
+                i = step[1] % len(model.devs)
+                if len(model.devs) > 1:
+                    model.devs.pop(i)
+                    hub.memories.pop(i)
+            elif step[0] == 'append':
+                b, n = step[1], step[2]
+                model.devs.append((b, b + n, bytearray(n)))
+                hub.memories.append(MemoryController(RAM(n), b, b + n))
+            elif step[0] == 'move':
+                i = step[1] % len(model.devs)
+                b, e, m = model.devs[i]
+                nb = step[2]
+                model.devs[i] = (nb, nb + (e - b), m)
+                hub.memories[i].beginning = nb
+                hub.memories[i].end = nb + (e - b)
+            elif step[0] == 'swap':
+                i, j = step[1] % len(model.devs), step[2] % len(model.devs)
+                (b1, e1_, m1), (b2, e2_, m2) = model.devs[i], model.devs[j]
+                if i != j and e1_ - b1 == e2_ - b2:
+                    model.devs[i], model.devs[j] = (b2, e2_, m1), (b1, e1_, m2)
+                    hub.memories[i].beginning, hub.memories[i].end = b2, e2_
+                    hub.memories[j].beginning, hub.memories[j].end = b1, e1_
+            check_state(hub, model)
+    except Violation as v:
+        return str(v)
+    except Exception as ex:      # noqa: BLE001
+        return 'host error %s: %s' % (type(ex).__name__, ex)
+    return None
+
+
+def shard_mutate(seed, count):
+    acc = Acc()
+    rng = random.Random(seed)
+    for _ in range(count):
+        n = rng.randrange(2, 5)
+        size = rng.choice((0x1000, 0x2000, 0x1000, 0x1800))
+        lay, at = [], 0x10000
+        for _d in range(n):
+            lay.append([at + rng.choice((0, 0, 1, 0x10)), 0, size])
+            at += size + rng.choice((0, 0, 0x1000, 0x800))
+        model = Model([tuple(x) for x in lay])
+        pts = sorted({(b + d) & PA_MASK for b, e, _ in model.devs for d in (0, 1, 4, 0x800, 0xFF8, 0x1000 - 4)} | {(e + d) & PA_MASK for b, e, _ in model.devs for d in (-8, -4, -1, 0, 4)})
+
+        def accesses(k):
+            out = []
+            for _a in range(k):
+                sz = rng.choice(SIZES)
+                out.append([rng.choice('rw'), rng.choice(pts), sz, rng.getrandbits(8 * sz)])
+            return out
+        script = accesses(rng.randrange(3, 9))
+        for _m in range(rng.randrange(1, 4)):
+            kind = rng.choice(('pop', 'pop', 'append', 'move', 'swap'))
+            if kind == 'pop':
+                script.append(['pop', rng.randrange(8)])
+            elif kind == 'append':
+                script.append(['append', at + rng.choice((0, 0x1000)), size])
+            elif kind == 'move':
+                script.append(['move', rng.randrange(8), rng.choice((0x8000, 0x30000, at + 0x4000, 0x10000))])
+            else:
+                script.append(['swap', rng.randrange(8), rng.randrange(8)])
+            script += accesses(rng.randrange(3, 9))
+        msg = mutate_case(lay, script)
+        acc.case(True, ('mut', repr(lay), repr(script)), cls='device-list-changed', sample={'layout': lay, 'script': script[:6]})
+        if msg:
+            acc.violation('C16:device-list-changed:' + bucket_of(msg), {'kind': 'mutate', 'layout': lay, 'script': script}, msg)
+    return acc
+
+
+def sparse_case(begin, ops):
+    """a controller window wider than 4 GiB in the 40-bit physical space, backed by an embedder-defined sparse MemoryType (a dictionary of bytes): the offset
+    handed to the device is address - beginning, whatever its width"""
+    from armulator.armv6.memory_controller_hub import MemoryController
+    from armulator.armv6.memory_types import MemoryType
+
+    class Sparse(MemoryType):
+        def __init__(self, size):
+            super().__init__(size)
+            self.cells = {}
+
+        def read(self, address, size):
+            return bytearray(self.cells.get(address + i, 0) if address + i < self.size else 0 for i in range(size))
+
+        def write(self, address, size, value):
+            for i, x in enumerate(bytes(value)[:size]):
+                if address + i < self.size:
+                    self.cells[address + i] = x
+    span = 3 << 32
+    dev = Sparse(span)
+    hub = MemoryControllerHub()
+    hub.memories.append(MemoryController(dev, begin, begin + span))
+    model = {}
+    try:
+        for kind, a, size, value in ops:
+            if kind == 'w':
+                hub[desc(a), size] = value
+                for i, x in enumerate(value.to_bytes(size, 'little')):
+                    if begin <= a < begin + span and a + i < begin + span:
+                        model[a + i - begin] = x
+            else:
+                got = hub[desc(a), size]
+                want = int.from_bytes(bytes(model.get(a + i - begin, 0) if begin <= a < begin + span and a + i < begin + span else 0 for i in range(size)), 'little')
+                if got != want:
+                    return 'read %s returned %#x, model %#x' % ([kind, a, size], got, want)
+        if dev.cells != {k: v for k, v in model.items()} and {k: v for k, v in dev.cells.items() if v} != {k: v for k, v in model.items() if v}:
+            bad = sorted(set(dev.cells) ^ set(model))[:4]
+            return 'device cells differ from the model at offsets %s' % [hex(b) for b in bad]
+    except Exception as ex:      # noqa: BLE001
+        return 'host error %s: %s' % (type(ex).__name__, ex)
+    return None
+
+
+def shard_sparse(seed, count):
+    acc = Acc()
+    rng = random.Random(seed)
+    for _ in range(count):
+        begin = rng.choice((0, 1 << 32, 0x40_0000_0000, 0x1000, (1 << 32) + 0x10))
+        span = 3 << 32
+        pts = [begin + o + d for o in (0, 1 << 32, 2 << 32, (1 << 32) - 8, span - 8, 0x1000, (1 << 32) + 0x1000, (2 << 32) + 0x20) for d in (0, 1, 4, 7, -4)]
+        pts = [a & PA_MASK for a in pts if 0 <= a < (1 << 40)]
+        ops = []
+        for _a in range(rng.randrange(6, 16)):
+            sz = rng.choice(SIZES)
+            ops.append(['w', rng.choice(pts), sz, rng.getrandbits(8 * sz)])
+        for a in sorted({o[1] for o in ops})[:10]:
+            ops.append(['r', a, rng.choice(SIZES), 0])
+            ops.append(['r', (a - (1 << 32)) & PA_MASK, 4, 0])
+            ops.append(['r', (a + (1 << 32)) & PA_MASK, 4, 0])
+        msg = sparse_case(begin, ops)
+        acc.case(True, ('sparse', begin, repr(ops)), cls='window-wider-than-4GiB', sample={'begin': begin, 'ops': ops[:4]})
+        if msg:
+            acc.violation('C16:wide-window:' + bucket_of(msg), {'kind': 'sparse', 'begin': begin, 'ops': ops}, msg)
+    return acc
+
+
 def from_list_case(lay, ops):
     """MemoryControllerHub.from_memory_list called twice with the SAME list / dict objects (how an embedder builds several cores from one memory map):
     each hub owns its devices - a write through one is invisible through the other, a later hub starts zero-filled, the caller's list is not modified"""
@@ -448,6 +595,8 @@ def run(ctx):
     tasks = [(shard_machine, (ctx.shard_seed(i), ex, steps, not ctx.quick)) for i in range(16)]
     tasks += [(shard_sweep, (i,)) for i in range(12)]
     tasks += [(shard_big, (ctx.shard_seed(600 + i), ctx.n(60, 1500))) for i in range(4)]
+    tasks += [(shard_mutate, (ctx.shard_seed(700 + i), ctx.n(150, 3000))) for i in range(4)]
+    tasks += [(shard_sparse, (ctx.shard_seed(800 + i), ctx.n(150, 3000))) for i in range(2)]
     tasks += [(shard_from_list, (ctx.shard_seed(80), ctx.n(300, 5000)))]
     tasks += [(shard_edge_steps, (ctx.shard_seed(50 + i), ctx.n(400, 8000))) for i in range(4)]
     ctx.pmap(_dispatch, tasks)
@@ -458,6 +607,12 @@ def _dispatch(fn, args):
 
 
 def replay(case, bucket=None):
+    if case.get('kind') == 'mutate':
+        msg = mutate_case(case['layout'], case['script'])
+        return [msg] if msg else []
+    if case.get('kind') == 'sparse':
+        msg = sparse_case(case['begin'], case['ops'])
+        return [msg] if msg else []
     if case.get('from_list'):
         msg = from_list_case(case['layout'], case['ops'])
         return [msg] if msg else []
